@@ -86,8 +86,9 @@ Proof.
   all: try (solve [unfold do_fchoose; cbn [fth queue buf handed]; destruct f; exact Hj]).
   all: try (solve [cbn [fth]; destruct f as [| | |a dd [lk|]| |]; try exact Hj;
                    [destruct (Nat.eqb lk (lid e) && negb (lclosed e))|]; exact Hj]).
-  all: try (solve [destruct (lclosed e); [exact Hj|]; destruct (loopq e); [exact Hj|];
-                   destruct (app e && _); [destruct (submit _ _ _ _ _)|]; exact Hj]).
+  all: try (solve [unfold loop_step; cbn [px en ch out lost cp];
+                   destruct (lclosed e); [exact Hj|]; destruct (loopq e); [exact Hj|];
+                   destruct (get_app_or_none _ _ && _); [destruct (submit _ _ _ _ _)|]; exact Hj]).
   all: try (solve [destruct (patched e) eqn:P; [|exact Hj]; unfold do_write; cbn [buf queue fth handed];
                    destruct (split_last d) as [[bf af]|];
                    [eapply J_append_txt; [exact Hj|exact P]|destruct Hj as [A B]; split; [exact A|exact B]]]).
